@@ -212,7 +212,8 @@ struct Res {
 
 fn scenario(ctx: &Ctx, out: &mut Outcome, rng: &mut Rng, idx: u64) {
     let local_backend = rng.chance(1, 3);
-    let retention_days = *rng.pick(&[1u32, 1, 90, 36_500]);
+    // (the last two: "keep for ever" settings whose nanosecond count does not fit an i64)
+    let retention_days = *rng.pick(&[1u32, 1, 1, 90, 90, 36_500, 36_500, 200_000, u32::MAX]);
     let grace_s = *rng.pick(&[0u64, 1, 300, 300]);
     let nchunks = 4 + rng.usize(7);
     let ncycles = 2 + rng.usize(3);
@@ -223,13 +224,13 @@ fn scenario(ctx: &Ctx, out: &mut Outcome, rng: &mut Rng, idx: u64) {
     let jump_permille = *rng.pick(&[10u64, 40, 100]);
     let skew_ns = BoundedClock::default().max_skew().as_nanos() as i64;
     let now0 = clock::SIM_EPOCH_NS;
-    let cutoff0 = now0 - retention_days as i64 * DAY - skew_ns;
+    let cutoff0 = (now0 as i128 - retention_days as i128 * DAY as i128 - skew_ns as i128).clamp(i64::MIN as i128, i64::MAX as i128) as i64;
     // chunk plans: list of row timestamps
     let mut plans: Vec<(String, Vec<i64>)> = vec![];
     for _ in 0..nchunks {
         let kind = rng.below(10);
         let k = 2 + rng.usize(3);
-        let (label, ts): (&str, Vec<i64>) = if retention_days == 36_500 {
+        let (label, ts): (&str, Vec<i64>) = if retention_days >= 36_500 {
             ("fresh", (0..k).map(|_| now0 - rng.range(1, 3 * H)).collect())
         } else if kind < 3 {
             ("old", (0..k).map(|_| cutoff0 - rng.range(2 * H, 3 * DAY)).collect())
@@ -606,13 +607,13 @@ fn scenario(ctx: &Ctx, out: &mut Outcome, rng: &mut Rng, idx: u64) {
     let mut retention_removals = 0u64;
     for e in res.events.iter().filter(|e| !e.call && e.op == "META:delete_chunk" && e.actor.starts_with("comp") && e.result.starts_with("ok")) {
         retention_removals += 1;
-        let cutoff = e.wall_ns - retention_days as i64 * DAY - skew_ns;
+        let cutoff = (e.wall_ns as i128 - retention_days as i128 * DAY as i128 - skew_ns as i128).clamp(i64::MIN as i128, i64::MAX as i128) as i64;
         match chunk_meta.get(&e.path) {
             Some((_mn, mx)) => {
                 if *mx > cutoff {
                     out.violation(
                         "C09/retention-dropped-chunk-with-rows-inside-window",
-                        &format!("retention ({} d) removed {} whose newest row ({}) is {} s newer than the cut-off", retention_days, e.path, mx, (*mx - cutoff) / S),
+                        &format!("retention ({} d) removed {} whose newest row ({}) is {} s newer than the cut-off", retention_days, e.path, mx, ((*mx as i128 - cutoff as i128) / S as i128)),
                         witness(json!({"path": e.path, "max_timestamp": mx, "cutoff": cutoff})),
                     );
                 }
